@@ -608,3 +608,12 @@ Proof.
   destruct (slot_of (age_keys x) sid) as [[sl s]|] eqn:S; [|reflexivity].
   rewrite (slot_aged x sid sl s S). reflexivity.
 Qed.
+
+(* ------------------------------------------------------- timestamp order *)
+
+(* The model's timestamp is seconds * 10^9 + nanoseconds (the harness encodes it as TAI64N seconds and
+   nanoseconds, big-endian, which the device compares bytewise): an earlier second is older whatever the
+   nanosecond parts are. *)
+Lemma timestamp_order s1 n1 s2 n2 : n1 < 1000000000 -> n2 < 1000000000 ->
+  (s1 * 1000000000 + n1 < s2 * 1000000000 + n2 <-> s1 < s2 \/ (s1 = s2 /\ n1 < n2)).
+Proof. intros A B. split; intros H; nia. Qed.
